@@ -4,7 +4,7 @@
    correspondence (inputs compared before/after every call, repeated and concurrent calls under the race
    detector, decoded copies). *)
 From Coq Require Import ZArith List Bool.
-From Sia Require Import Prim.Result Prim.Tok Policy.Model Ledger.Types Ledger.Mid Ledger.Validate Ledger.Apply Ledger.Proofs.
+From Sia Require Import Prim.Result Prim.Tok Policy.Model Ledger.Types Ledger.Mid Ledger.Validate Ledger.Apply Ledger.Proofs Ledger.Spends Ledger.VApply.
 Import ListNotations.
 Open Scope Z_scope.
 
@@ -26,3 +26,14 @@ Theorem C09_spend_records_presented : forall m e lf txid m', spend_sce m e lf tx
   exists k, nth_error (m_sces m') k = Some {| d_sce := e; d_sc_leaf := lf; d_sc_created := d_sc_created (nth k (m_sces m) dummy_sced); d_sc_spent := true |}.
 Proof. exact spend_records_presented. Qed.
 Print Assumptions C09_spend_records_presented.
+
+(* what ValidateBlock has executed, ApplyBlock executes again: an accepted block's v1 and v2 transactions apply in
+   ApplyBlock's order and reach exactly the MidState validation reached -- the state reached depends only on the parent
+   state and the block *)
+Theorem C09_application_repeats_validation : forall H net vt pt se sd s b, validate_block H net vt pt se sd s b = Ok tt ->
+  exists m1 m2, validate_txns1 H net vt se sd s (new_mid s) (b_txns b) (b_supp b) = Ok m1 /\
+                apply_txns1 net s (new_mid s) (b_txns b) (b_supp b) = Ok m1 /\
+                fold_r (vstep H net vt pt se sd s) (b_v2txns b) m1 = Ok m2 /\
+                fold_r (apply_txn2 net s) (b_v2txns b) m1 = Ok m2.
+Proof. exact accepted_transactions_apply. Qed.
+Print Assumptions C09_application_repeats_validation.
